@@ -66,13 +66,14 @@ def gen_population(rng, npop, dim):
         pop.append([b + spread * rng.uniform(-1, 1) for b in base])
     e0 = rng.choice([0.0, 1.0, -2.0, 1e3]) * rng.uniform(0.5, 1.5)
     es = rng.choice([0.0, 1e-9, 1e-5, 1e-3, 1.0])
-    ene = [e0] + [e0 + es * rng.random() for _ in range(npop - 1)]
+    sgn = rng.choice([1.0, 1.0, -1.0, 0.0])         # member 0 is the best (sorted populations), the worst, or somewhere in between
+    ene = [e0] + [e0 + es * (rng.random() * sgn if sgn else rng.uniform(-1, 1)) for _ in range(npop - 1)]
     if npop > 1 and rng.random() < 0.35:
         # a single outlying member decides the population-based conditions: it may be any member, also the second or the last one
         j = rng.choice([1, npop - 1, rng.randrange(1, npop)])
         big = rng.choice([1e-5, 1e-3, 0.1, 3.0])
         pop[j] = [b + big * rng.choice([-1, 1]) for b in base]
-        ene[rng.choice([1, npop - 1, j])] = e0 + big * rng.choice([1.0, 10.0])
+        ene[rng.choice([1, npop - 1, j])] = e0 + big * rng.choice([1.0, 10.0, -1.0, -10.0])
     return pop, ene
 
 
